@@ -446,6 +446,8 @@ def report_count(run, spec, results, failing, corr_broken, broken, stats, skippe
                                oracles_on_implementation=r.impl_or, found_by='targeted search after a broken correspondence'))
         elif corr_broken and spec.get('prescribed_quota') and prescribed_quota_search(run, spec, corr_broken):
             pass
+        elif corr_broken and spec.get('spec_diff') and spec_diff_search(run, spec, corr_broken):
+            pass
         elif corr_broken and spec.get('model_is_spec'):
             # C03: the property *is* "the history is the one the published procedure prescribes", and the Lean model is the
             # formalised procedure, so an input on which the two histories differ is the failing input
@@ -529,6 +531,54 @@ def targeted_search(run, spec, corr_broken, rng):
         sigs = [s for s in judge(run, spec, r) if findings.match(run.prop, r, s) is None]
         if sigs:
             return r, sigs
+    return None
+
+
+def spec_diff_search(run, spec, corr_broken):
+    """after a broken correspondence: where the first difference between the implementation's history and the proved model's is of the kind
+    the property itself speaks about (spec['spec_diff'](model_line, impl_line) -> signature or None), that input is a failing input"""
+    for r in corr_broken[:600]:
+        if not (r.impl.startswith('OK ') and (r.model_line or '').startswith('OK ')):
+            continue
+        sig = spec['spec_diff'](r.model_line, r.impl)
+        if not sig:
+            continue
+        def still(q, r=r):
+            rr = campaign.evaluate([(r.family, q, r.o)])[0]
+            if rr.same or not rr.impl.startswith('OK '):
+                return False
+            campaign.model_lines([rr])
+            return bool((rr.model_line or '').startswith('OK ') and spec['spec_diff'](rr.model_line, rr.impl))
+        try:
+            small = shrink(r, still)
+        except Exception:
+            small = r.p
+        rr = campaign.evaluate([(r.family, small, r.o)])[0]
+        campaign.model_lines([rr])
+        run.violation(dict(kind='implementation', signatures=[sig], original=describe(r), minimal=describe(rr),
+                           first_difference=first_diff(rr.model_line or '', rr.impl), implementation=rr.impl[:3000],
+                           found_by='first difference between the implementation history and the proved model after a broken correspondence'))
+        return True
+    return False
+
+
+def stable_too_early(model_line, impl_line):
+    """C08: the implementation ends an iteration as 'stable' at a point where the model - whose iteration is proved to end only on
+    convergence, an election, or a surplus that stopped decreasing (C08.iterate_cases, C08.prf_iterate_cases) - does not"""
+    ma, ia = parse_line(model_line), parse_line(impl_line)
+    if not ma or not ia:
+        return None
+    for x, y in zip(ma, ia):
+        if (x['tag'], x['verb']) != (y['tag'], y['verb']):
+            try:
+                vy = bytes.fromhex(y['verb'].rstrip('.')).decode(); vx = bytes.fromhex(x['verb'].rstrip('.')).decode()
+            except ValueError:
+                return None
+            if 'stable' in vy.lower() and 'stable' not in vx.lower():
+                return 'C08: the iteration ended as stable (%r) where the prescribed iteration had not stopped decreasing (model: %r)' % (vy, vx)
+            return None
+        if (x['quota'], x['votes'], x['x1'], x['x2'], x['cs']) != (y['quota'], y['votes'], y['x1'], y['x2'], y['cs']):
+            return None
     return None
 
 
@@ -630,7 +680,7 @@ def C06(run):
 
 @prop('C08')
 def C08(run):
-    count_property(run, dict(rules=gen.MEEKFAM, keys=['C08c', 'C08t', 'C08k'], proj=proj_C08, lowprec=0.05, quick=4000, extra_gate=formula_gate,
+    count_property(run, dict(rules=gen.MEEKFAM, keys=['C08c', 'C08t', 'C08k'], proj=proj_C08, lowprec=0.05, quick=4000, extra_gate=formula_gate, spec_diff=stable_too_early,
                              thorough=100000, equal_ranks=0.35))
 
 
